@@ -93,10 +93,14 @@ def expand(src, dst, kinds, seen, opcount, rotate=()):
     """Write every TLC program of `src` once per container kind in `kinds`, plus once on one of `rotate`
     (chosen by the program's index). Returns (programs written, new distinct non-trivial ones)."""
     n = d = 0
-    with open(src) as f, open(dst, "w") as out:
-        for i, line in enumerate(f):
+    # TLC prints the programs in an order that depends on its worker scheduling: sort them, and pick the
+    # rotating kind from the program text, so that a run is a function of the tier and the seed only
+    with open(src) as f:
+        lines = sorted(f.read().splitlines())
+    with open(dst, "w") as out:
+        for line in lines:
             prog = json.loads(line)
-            ks = list(kinds) + ([rotate[i % len(rotate)]] if rotate else [])
+            ks = list(kinds) + ([rotate[int(hashlib.md5(line.encode()).hexdigest(), 16) % len(rotate)]] if rotate else [])
             for k in ks:
                 p = concretise(prog, k)
                 s = json.dumps(p, separators=(",", ":"))
